@@ -167,7 +167,7 @@ def factors(units):
             "power": HP_W if us else 1000.0}
 
 
-def inp_units(s, units, controls_text="", rules_text=""):
+def inp_units(s, units, controls_text="", rules_text="", status_settings=False):
     """INP text of a vf.net spec in any of the ten EPANET flow units (hand-written emitter, own unit table)."""
     f = factors(units)
     o = s["opts"]
@@ -211,7 +211,12 @@ def inp_units(s, units, controls_text="", rules_text=""):
                 status.append(" %s Closed" % l["n"])
         else:
             setting = l["setting"] / (f["flow"] if l["t"] == "FCV" else (f["pres"] if l["t"] in ("PRV", "PSV", "PBV") else 1.0))
-            Va.append(" %s %s %s %s %s %s %s" % (l["n"], l["a"], l["b"], g(l["D"] / f["diam"]), l["t"], g(setting), g(l["K"])))
+            if status_settings and l["status"] == "ACTIVE":
+                # the setting in force is given in [STATUS] (a numeric entry there overrides the [VALVES] column)
+                Va.append(" %s %s %s %s %s %s %s" % (l["n"], l["a"], l["b"], g(l["D"] / f["diam"]), l["t"], g(setting * 0.5 + 1.0), g(l["K"])))
+                status.append(" %s %s" % (l["n"], g(setting)))
+            else:
+                Va.append(" %s %s %s %s %s %s %s" % (l["n"], l["a"], l["b"], g(l["D"] / f["diam"]), l["t"], g(setting), g(l["K"])))
             if l["status"] in ("CLOSED", "OPEN"):
                 status.append(" %s %s" % (l["n"], l["status"].capitalize()))
     pats = [" %s %s" % (name, " ".join(g(m) for m in mult)) for name, mult in s["patterns"].items()]
